@@ -117,10 +117,15 @@ PROPERTIES = {
         "level_text": "seeded search over interleavings of concurrent registry operations (including the window between shard lookup and shard lock) on the real endpoint index; each history is checked for linearizability against a small sequential reference model; sampling, not proof",
         "level_note": "trusted: porcupine v1.3.0, the sequential reference model (written from the statement; push type compared as 'at least as strong'), testing/synctest quiescence, the single yield hook as the only intra-operation preemption point (all other index operations are atomic under the index lock)",
         "rule": "each run = 2-4 registries with generated programs over 1-2 services; the simulator picks which parked registry runs next; distinct = distinct schedule signature; non-trivial = some operation ran while an update was parked between lookup and lock",
-        "real": ["model.EndpointIndex (UpdateServiceEndpoints, DeleteServiceShard, DeleteShard, PruneShard, Shardz)"],
-        "stub": ["registries (harness tasks issuing the calls real registries make)", "XdsCache (model.DisabledCache)"],
-        "assumptions": ["index operations other than UpdateServiceEndpoints are atomic under the index lock", "reads compare non-empty per-registry reports only (existence of an empty shard set and the accumulated service-account set are bookkeeping)"],
+        "real": ["model.EndpointIndex (UpdateServiceEndpoints, DeleteServiceShard, DeleteShard, PruneShard, Shardz)"] + WIS_REAL,
+        "stub": ["registries (harness tasks issuing the calls real registries make)", "XdsCache (model.DisabledCache; c13a only)"] + WIS_STUB,
+        "assumptions": ["index operations other than UpdateServiceEndpoints are atomic under the index lock", "reads compare non-empty per-registry reports only (existence of an empty shard set and the accumulated service-account set are bookkeeping)",
+                        "c13b restricted domain: single network, default locality LB, PILOT_AUTO_SEND_UNHEALTHY_ENDPOINTS off (unhealthy endpoints are never 'explicitly allowed'), registries follow SvcUpdate/RemoveShard with the push request real registries send"],
         "subchecks": [
+            {"check": "c13b", "what": "whole istiod: 2-3 simulated registries speak XDSUpdater (EDSUpdate/EDSCacheUpdate/SvcUpdate/RemoveShard) under own shard keys, interleaved incl. inside UpdateServiceEndpoints; EDS held by a proxy == union of last healthy reports per port/subset, locality weights consistent",
+             "nontrivial": "an operation ran while an update was parked between shard lookup and shard lock",
+             "budget": {"quick": 30, "thorough": 400}, "seeds": {"quick": 1, "thorough": 3}, "chunk": 20,
+             "must_probe": ["op_while_update_parked", "nonempty_clusters_compared"]},
             {"check": "c13a", "what": "EndpointIndex linearizability under registry interleavings",
              "nontrivial": "an operation ran while an update was parked between shard lookup and shard lock",
              "budget": {"quick": 25, "thorough": 300}, "seeds": {"quick": 1, "thorough": 3}, "chunk": 300,
